@@ -53,7 +53,9 @@ def resTable : ResTable
   | .dbl, _, _ => .returns [.dbl]
   | .bool, .neg, false => .raises
   | .str, .add, false => .returns [.str]
+  | .str, .mod, false => .raises          -- 714b49c: `string % x` is "no matching overload", not Python %-formatting
   | .bytes, .add, false => .returns [.bytes]
+  | .bytes, .mod, false => .raises
   | .list, .add, false => .returns [.list]
   | .ts, .add, _ => .returns [.ts]
   | .ts, .sub, false => .returns [.dur, .ts]
